@@ -470,6 +470,14 @@ theorem same_gateFire (s : State) (ch : Option Int) (ok : Bool) : Same (gateFire
   · exact hg
   · exact (same_openCore _ ch ok).trans hg
 
+theorem same_foldl_join (ps : List Player) (s : State) :
+    Same (ps.foldl (fun acc p => (join acc p.id).1) s) s := by
+  induction ps generalizing s with
+  | nil => exact Same.refl s
+  | cons p t ih => exact (ih _).trans (same_join s p.id)
+
+theorem same_autoJoinStale (s : State) : Same (autoJoinStale s) s := same_foldl_join s.players s
+
 /-- the backend's results in an event list are zero-sum (contract `ResultConserves`, monitored on every real result) -/
 def ResultsConserve : List Event → Prop
   | [] => True
@@ -491,6 +499,7 @@ theorem ledger_step (s : State) (e : Event) (h : Ledger s)
   | start => exact h
   | setup gc ps => exact h
   | finish id => exact ledger_finish s id h
+  | autojoin => exact (same_autoJoinStale s).ledger h
   | fire ch ok => exact (same_gateFire s ch ok).ledger h
   | settle r => exact ledger_settle s r hz h
   | «continue» ex => exact (same_continueGame s ex).ledger h
